@@ -16,6 +16,7 @@ BUF = 32768
 LIMITS = [0, 1024, 2048, 4096, 8192, 16384, 1 << 20]     # all present in Gen/C02.limiter_table (burst = 2*limit proved there)
 KNOWN_KEY = "limiter-burst-exceeded"
 RACE_KEY = "start-nil-forwarder-race"
+STALL_KEY = "stalled-report-blocks-forget"
 
 
 # ------------------------------------------------------------------------------------------------
@@ -161,6 +162,28 @@ def gen_life(rng, n):
     return out
 
 
+def gen_stall(rng, n, n_long):
+    """the stats backend hangs exactly when the bridge makes its final traffic report (gated cloud-control double)"""
+    out = []
+    for k in range(n + n_long):
+        long = k < n_long
+        ender = rng.choice([0, 1]) if long or rng.random() < 0.8 else 2
+        def data(must):
+            rs = [dict(rand_data(rng, rng.choice([1, 2, 3, 9, 64, 700])), e=0) for _ in range(rng.randrange(1 if must else 0, 4))]
+            return rs
+        zero = (not long) and rng.random() < 0.12            # nothing moved: no report is due, closure and forgetting still are
+        r0 = [] if zero else data(ender == 0)
+        r1 = [] if zero else data(ender == 1)
+        out.append({"mode": "stall", "stall_on": rng.choice(["update", "get"]), "ender": ender, "long": long, "r0": r0, "r1": r1})
+    return out
+
+
+def stall_deterministic(c):
+    """the direction that ends the tunnel has flushed >= 1 byte into its counter before it calls Close, so the final report
+    made by Close's clean handler is due and parks in the stalled call"""
+    return c["mode"] == "stall" and ((c["ender"] == 0 and len(readable(c["r0"])) > 0) or (c["ender"] == 1 and len(readable(c["r1"])) > 0))
+
+
 def special_cases(thorough):
     cs = []
     # counter batching across BatchUpdateThreshold (1 MiB): 40 full buffers, then a remainder
@@ -198,7 +221,7 @@ def v_writes(ws):
     return [[max(0, w["max"]), bool(w["err"])] for w in ws]
 
 
-def case_value(c, o, sliced):
+def case_value(c, o, sliced, bounded=False):
     lim = [2 * c["limit"]] if c.get("limit", 0) > 0 else None
     hb = bytes.fromhex
     if c["mode"] == "copy":
@@ -209,6 +232,9 @@ def case_value(c, o, sliced):
         obs = [hb(o["out0"]), hb(o["out1"]), o["cnt0"], o["cnt1"], closer]
         return [1, sliced, lim, False, v_reads(c["r0"]), v_writes(c["w0"]), v_reads(c["r1"]), v_writes(c["w1"]),
                 list(c["sched"]), obs]
+    if c["mode"] == "stall":
+        obs = [bool(o["src_closed"]), bool(o["tgt_closed"]), [bool(o["forgot_parked"])] if c.get("long") else None]
+        return [3, True, [5] if bounded else None, False, [], [], [], [], [], obs]
     obs = [[bool(s["ok"]), s["count"]] for s in o.get("life") or []]
     return [2, sliced, None, False, list(c["ids"]), [list(op) for op in c["ops"]], [], [], [], obs]
 
@@ -222,6 +248,10 @@ def classify(c, o, sliced):
     key = o.get("prop_key") or "predicate"
     if key == "incomplete" and not sliced and c.get("limit", 0) > 0 and max_chunk(c) > 2 * c["limit"]:
         return KNOWN_KEY
+    if key == "registry-parked":
+        return STALL_KEY
+    if key == "stuck" and c["mode"] == "stall":
+        return "closure-waits-for-stats-report"
     return {"prefix": "delivered-not-a-prefix", "counter": "byte-counter-inexact", "incomplete": "incomplete-without-early-close",
             "not-closed": "end-not-closed", "stuck": "closure-not-observed", "registry": "tunnel-map-not-forgotten"}.get(key, key)
 
@@ -277,6 +307,7 @@ def run(ctx, only_cases=None):
         cases += gen_bridge(rng, 1500 if thorough else 130, "bridge")
         cases += gen_bridge(rng, 300 if thorough else 30, "free")
         cases += gen_life(rng, 200 if thorough else 25)
+        cases += gen_stall(rng, 60 if thorough else 12, 6 if thorough else 2)
     # the start race can kill the harness process (nil dereference inside a goroutine of Bridge.Start): own process
     race_cases = [c for c in cases if c["mode"] == "startrace"]
     cases = [c for c in cases if c["mode"] != "startrace"]
@@ -311,7 +342,7 @@ def run(ctx, only_cases=None):
             continue
         reported[key] = True
         small, so = c, o
-        if key not in ctx.known and only_cases is None:
+        if key not in ctx.known and only_cases is None and c["mode"] != "stall":
             small = shrink(binary, c, key, sliced)
             so = vlib.run_harness(binary, [small], timeout=120)[0]
         ctx.violation(key, "real tunnel.Bridge (%s mode): %s" % (c["mode"], so.get("prop_msg") or o.get("prop_msg")),
@@ -319,9 +350,11 @@ def run(ctx, only_cases=None):
 
     # (ii) model vs implementation on the projected observables
     # (cases that push more than 150 KB are checked by the Go-side predicate only: the extracted list functions are not tail recursive)
-    idx = [i for i, c in enumerate(cases) if c["mode"] in ("copy", "bridge", "life") and not outs[i].get("stuck")
+    longs = [o["forgot_parked"] for c, o in zip(cases, outs) if c["mode"] == "stall" and c.get("long") and stall_deterministic(c) and o.get("parked")]
+    bounded = bool(longs) and all(longs)       # does Close return while the stats call is parked (cleanup with a bounded wait)?
+    idx = [i for i, c in enumerate(cases) if (c["mode"] in ("copy", "bridge", "life") or (stall_deterministic(c) and outs[i].get("parked"))) and not outs[i].get("stuck")
            and len(readable(c.get("r0", []))) + len(readable(c.get("r1", []))) <= 150000]
-    terms = [case_value(cases[i], outs[i], sliced) for i in idx]
+    terms = [case_value(cases[i], outs[i], sliced, bounded) for i in idx]
     mism = []
     try:
         res = vlib.model_eval(PROP, terms)
@@ -341,7 +374,7 @@ def run(ctx, only_cases=None):
         if outs[i]["prop_ok"] and not ctx.violations:
             pred = None
             try:
-                pred = vlib.model_eval(PROP, [case_value(cases[i], outs[i], sliced)], predict=True)[1][0]
+                pred = vlib.model_eval(PROP, [case_value(cases[i], outs[i], sliced, bounded)], predict=True)[1][0]
             except Exception:
                 pass
             ctx.violation("model-mismatch", "Corr/C02.check: the Pipe model (variant %s) and the real tunnel.Bridge disagree on a %s case "
@@ -354,11 +387,20 @@ def run(ctx, only_cases=None):
     distinct, nontrivial = set(), set()
     dist = {"copy": 0, "bridge_gated": 0, "bridge_free": 0, "lifecycle": 0, "with_limiter": 0, "read_over_burst": 0,
             "write_faults": 0, "read_timeouts": 0, "read_errors": 0, "cancelled": 0, "both_directions_carry_data": 0,
-            "bytes_through_real_code": 0, "closer_direction_0": 0, "closer_direction_1": 0, "duplicate_tunnel_ids": 0}
+            "bytes_through_real_code": 0, "closer_direction_0": 0, "closer_direction_1": 0, "duplicate_tunnel_ids": 0,
+            "stats_backend_stalled": 0, "final_report_parked": 0, "forget_required_while_parked": 0}
     for c, o in zip(cases, outs):
         h = hashlib.sha256(json.dumps(c, sort_keys=True).encode()).hexdigest()
         distinct.add(h)
         m = c["mode"]
+        if m == "stall":
+            dist["stats_backend_stalled"] += 1
+            dist["final_report_parked"] += bool(o.get("parked"))
+            dist["forget_required_while_parked"] += bool(c.get("long"))
+            dist["bytes_through_real_code"] += o.get("len0", 0) + o.get("len1", 0)
+            if o.get("parked") and o.get("src_closed") and o.get("tgt_closed"):
+                nontrivial.add(h)
+            continue
         dist[{"copy": "copy", "bridge": "bridge_gated", "free": "bridge_free", "life": "lifecycle"}[m]] += 1
         rs = c.get("r0", []) + c.get("r1", [])
         dist["with_limiter"] += c.get("limit", 0) > 0 and m != "life"
@@ -388,11 +430,16 @@ def run(ctx, only_cases=None):
                 "burst-1/burst/burst+1, the 32 KiB buffer; empty reads, temporary timeouts, EOF/error with and without data), write oracles "
                 "(short writes, errors), limits {0,1K,2K,4K,8K,16K,1M} B/s, schedules of the two directions (random, bursty, one-sided) for the "
                 "gated bridge, ungated runs, start/end operation lists with duplicate tunnel ids for the lifecycle. distinct = distinct case JSON; "
-                "non-trivial = bytes were delivered through the real code (copy: after >= 2 reads) or a bridge was registered (lifecycle).",
+                "non-trivial = bytes were delivered through the real code (copy: after >= 2 reads) or a bridge was registered (lifecycle). "
+                "stall cases: real startSourceBridge/runBridgeLifecycle with a cloud-control double whose GetPortMapping / UpdatePortMappingStats "
+                "parks once armed; bytes move, one end closes (or Bridge.Close is called), both ends must observe closure within 4 s WHILE the final "
+                "traffic report is parked, the tunnel map must forget the tunnel while parked (long cases, 7.5 s) and after release; non-trivial = "
+                "the report was parked and both ends were closed meanwhile.",
         "samples": [{"case": brief(cases[i]), "observed": {k: v for k, v in outs[i].items() if k in ("prop_ok", "len0", "len1", "cnt0", "cnt1", "closer", "order", "life", "nrd", "nwr", "total")}} for i in pick],
         "model_vs_impl_cases": len(terms), "model_vs_impl_mismatches": len(mism), "impl_property_failures": nfail,
         "input_distribution": dist, "generated_file_changed": gen_changed,
         "tree_limiter_variant": "sliced (repaired)" if sliced else "pinned (one WaitN per read: known defect)",
+        "tree_cleanup_variant": "bounded wait for the final report" if bounded else "unbounded wait for the final report (Close parks with the stats backend)",
         "max_harness_case_ms": max([o.get("wall_ms", 0) for o in outs] + [0]),
     })
     ctx.assumptions += [
@@ -401,6 +448,8 @@ def run(ctx, only_cases=None):
         "schedule granularity: one Read (+ limiter wait), one Write, one closeBridge(); the harness replays schedules with gated ends but cannot "
         "park a goroutine between the end of its loop and its deferred closeBridge (merged in Corr/C02.mstep; the theorems cover the finer steps)",
         "'the other end observes closure within bounded time' is a wall-clock fact: checked by the harness watchdog only (PARTIAL, see C02_full_statement)",
+        "stats backend (CloudControl.GetPortMapping / UpdatePortMappingStats) may answer arbitrarily late or never: a thread of its own in Model/PipeClose.v; "
+        "whether the final report reaches cloud control at all (clean handler vs. the loops' counter flush) is outside C02 and only reported",
         "not modelled: SetSourceConnection (source re-attach while bridged), cross-node forwarding (runBidirectionalForward uses io.Copy), traffic meter / quota throttling (never configured by startSourceBridge)",
     ]
     if broken is not None:
